@@ -24,7 +24,7 @@ CHECKS['C01'] = {
     'technique': 'property-based testing (rapid) with a file-level oracle: intactness is decided by comparing the files under the volume roots with the generated block',
     'units': [
         unit('script', 'keepstore_c01', '^TestVerifC01Script$',
-             {'shards': 16, 'checks': 60}, {'shards': 16, 'checks': 1200, 'timeout': 1800}),
+             {'shards': 16, 'checks': 60}, {'shards': 16, 'checks': 2000, 'timeout': 3000}),
         # 64 MiB boundary: each rapid case runs the sizes 64MiB-1, 64MiB, 64MiB+1 (3 evaluations);
         # one process, each evaluation moves several hundred MiB
         unit('boundary', 'keepstore_c01', '^TestVerifC01Boundary$',
